@@ -6,7 +6,7 @@ package ddptypes
 
 /*@
 // type graphs are built once by the parser and never rewritten
-immutable ddptypes.TypeAlias ddptypes.TypeDef ddptypes.InstantiatedGenericType ddptypes.StructType.instantiatedWith
+immutable ddptypes.TypeAlias ddptypes.TypeDef ddptypes.InstantiatedGenericType ddptypes.StructType.instantiatedWith ddptypes.StructType.genericType
 
 // norm(t): t with every alias (and resolved generic) replaced by its target, also inside list types.
 // The four axioms are the recursive definition of norm by cases on the dynamic type.
@@ -162,12 +162,21 @@ lemma L_list_equal [C14]: forall a, b Type :: Equal(box(mk[ListType](a)), box(mk
 func UnifyGenericType$1 [C15]
   returns r
   requires genericTypes != nil
+  modifies map:map[string]ddptypes.Type
   ensures old(mapHas(genericTypes, generic.Name)) ==> r == old(genericTypes[generic.Name])
   ensures !old(mapHas(genericTypes, generic.Name)) ==> r == instantiatedType
   ensures mapHas(genericTypes, generic.Name) && genericTypes[generic.Name] == r
   // no other binding changes
   ensures forall n string :: n != generic.Name ==>
             mapHas(genericTypes, n) == old(mapHas(genericTypes, n)) && genericTypes[n] == old(genericTypes[n])
+
+// type arguments of a generic Kombination parameter: an iteration over the argument list completes only if the
+// (possibly just bound) parameter type argument is equivalent to the argument's type argument - a type parameter
+// that is already bound to something else ends the unification (result nil)
+func UnifyGenericType [C15]
+  requires genericTypes != nil
+  loop 1 invariant genericTypes != nil
+  loop 1 end requires Equal(paramTypParam, argTypParam)
 
 // instantiations are cached per generic Kombination: the first cached instantiation whose type arguments are pairwise
 // equivalent to the requested ones is returned (equal arguments => one and the same type object) ...
